@@ -1,5 +1,9 @@
 """Lradiotap (RadioTap codec sub-check: C19, C05, C06, C07, C01) configuration for ./check"""
+import os, sys
+sys.path.insert(0, os.path.dirname(os.path.dirname(os.path.abspath(__file__))))
+from go2v_hook import go2v_hook2
 CONF = {
+    'pre': [go2v_hook2],   # `align` regenerated from radiotap.go and proved equal to the model's rt_align
     'interesting': ['truncated-prefix-of-valid', 'consistent-length-cut', 'length-forced', 'single-present-bit', 'present-combination', 'all-fields',
                     'namespace-chain', 'vendor-skip-extreme', 'present-chain-runs-out', 'present-extended', 'vendor-namespace',
                     'second-radiotap-namespace', 'beyond-64k', 'fcs-appended', 'datapad', 'length-below-header', 'error-after-add',
